@@ -22,6 +22,8 @@ Fails(o) ==
                                         ELSE IF Above(xs, q) /\ Len(xs) > 1 THEN ys[Len(xs)] * o.dspl
                                         ELSE Times(Spline(xs, ys, q), o.dspl))
      \cup Check("spline:integral", o.int = Times(I, o.dint))
+     \cup Check("spline:integral", o.int2 = Times(SignedIntegral(xs, ys, <<2 * xs[Len(xs)] + 1, 2>>, q), o.dint2))
+     \cup Check("spline:integral", o.int3 = Times(SignedIntegral(xs, ys, <<2 * xs[1] + 1, 2>>, q), o.dint3))
      \cup Check("spline:integral-antisymmetric", o.intrev = -o.int)
      \cup Check("spline:integral-additive", o.intadd = o.int)
      \cup Check("spline:mean-value", q = a \/ o.mean = o.int)
